@@ -335,6 +335,21 @@ pub fn exec_trace(trace: &Value, res: &mut ExecResult) -> u64 {
         res.fail("cli-hang", format!("`numbat {}` did not exit within 60 s", full_args.join(" ")));
         return obs.0;
     }
+    // A tool that dies with an internal panic has not "reported" anything: the diagnostic of the
+    // failing input is missing. (Rust's panic message and exit status 101 are unmistakable and
+    // do not depend on numbat's wording.)
+    if out.code == Some(101) && out.stderr.contains("panicked at") {
+        let at = out.stderr.lines().find(|l| l.contains("panicked at")).unwrap_or("").to_string();
+        res.fail(
+            "cli-crash",
+            format!(
+                "`numbat {}` crashed instead of reporting the outcome of its input ({at}); file={:?}",
+                full_args.join(" "),
+                file_lines.join(" ⏎ ")
+            ),
+        );
+        return obs.0;
+    }
     let describe = || -> String {
         format!(
             "args={:?} file={:?} exit={:?} stdout={:?} stderr={:?}",
